@@ -154,6 +154,11 @@ package cisco
 // line number - see delACL)
 //vc:  assert[C02,C14] at "slices.Reverse(del)" @deletesIssuedBottomUp true
 //vc:  assert[C02,C14] at "delACL(cmdPos)" @everyPendingLineDeletedOnce cmdPos.cmd != nil && arg0 == cmdPos
+// two lines that differ only in their log attribute cannot both be on the
+// device: they are recognised as one rule by removing " log" / " log-input"
+// wherever it stands in the line (keywords such as time-range or fragments may
+// follow it) - the pattern is pinned by its text
+//vc:  assert[C02] at "stripLogRX := regexp.MustCompile(" @logAttributeRemovedAnywhere arg0 == " log(?:-input)?"
 //vc:  assign at "action0 := getIOSAction(run[0])" runUniform = true
 //vc:  assign at "action0 == getIOSAction(b)" runUniform = runUniform && strings.Cut(b.parsed, " ") == action0
 //vc:  invariant[C02,C14] 6 "for tail > 0 && getIOSAction(run[tail-1]) == getIOSAction(run[tail])" @tailHasOneAction 0 <= tail && tail < len(run) && (forall j int :: { run[j] } tail <= j && j < len(run) ==> strings.Cut(run[j].parsed, " ") == strings.Cut(run[len(run)-1].parsed, " "))
@@ -405,6 +410,7 @@ package cisco
 //vc:storesonly[C14,C01] (*State).diffASAACLs add in (*State).diffASAACLs, (*State).diffASAACLs$5
 //vc:func (*State).diffASAACLs
 //vc:  assert[C01] at "delete(delMap, p)" @deviceLineMovedOnce a != nil
+//vc:  assert[C01] at "rx := regexp.MustCompile(" @logAttributePatternPinned arg0 == " log( ((\\w+ )?interval \\d+|\\w+|disable|default))?\\b"
 // (structural, C14: adds and moves are issued first, then the list of pending
 // deletes - collected top-down - is reversed once and the lines that were not
 // moved are deleted bottom-up)
